@@ -1,6 +1,6 @@
 """C14 -- parameter operators compute their documented tensor operation (structural clauses)."""
 from ..core import Ctx, Ob, PropSpec
-from ..rules import r1, r3, r4, r5
+from ..rules import r1, r3, r4, r5, r4r
 
 
 def run(ctx: Ctx) -> list[Ob]:
@@ -14,6 +14,7 @@ def run(ctx: Ctx) -> list[Ob]:
     obs += r5.r5a(ctx)
     obs += r5.r5b(ctx)
     obs += r4.param_op_contracts(ctx)
+    obs += r4r.param_rule_shapes(ctx)
     return obs
 
 
@@ -31,9 +32,9 @@ SPEC = PropSpec(
         "R4a (symbolic shape interpretation of the source, nothing executed): for every concrete torch parameter operator, every "
         "input rank 1..3 and every axis (sizes symbolic), forward applied to inputs of shape (F, *in_shape_i) returns exactly "
         "(F, *self.shape) -- 'the result has the declared shape ... independently for every fold'; a broadcast, view, permute, einsum "
-        "or index that only works when two independent sizes coincide is reported at the operator."
+        "or index that only works when two independent sizes coincide is reported at the operator. R4p: every parameter-operator compile rule, interpreted on an abstract symbolic node (ranks 1..3, every axis), returns a torch node whose declared shape and normalised axis equal the symbolic node's."
     ),
     not_decided="the mathematical content of each operator (numerical).",
     run=run,
-    floors={"R1a": 28, "R1b": 28, "R1c": 100, "R3a": 60, "R3f": 60, "R5a": 9, "R5b": 12, "R4a": 100},
+    floors={"R4p": 80, "R1a": 28, "R1b": 28, "R1c": 100, "R3a": 60, "R3f": 60, "R5a": 9, "R5b": 12, "R4a": 100},
 )
